@@ -10,8 +10,8 @@ CHECKS = {
          "the kernel is modelled by simos (write(2) on O_APPEND is the durability point for process death); no real child process is killed"),
  "C13": ("exploration", "3/C13", "Seeded search over interleavings of 1-16 writer tasks with clock decisions placed just before/on/after interval boundaries (intervals 1 s..1 h cost nothing on the simulated clock), idle gaps, stop/start cycles, pre-existing files, three time zones; oracle after Stop: every payload exactly once, whole, in one file named <name>.<14 digits>; time order of writes against file name times; single-writer freshness; no truncation.",
          "simulated clock and disk; a write in flight when Close is called completes (os.File semantics); fault-free disk (faults are C19)"),
- "C19": ("fault_enumeration", "3/C19", "Fault sequences: directory renamed away/restored, EMFILE/ENOSPC/EACCES on open, placed by the seeded scheduler anywhere relative to 3-6 interval boundaries and the writes of 1-4 tasks; plus file/console/rolling targets that are closed, never opened or fail every write. Oracle: every call returns, no panic, nothing accepted is lost (all inodes incl. the renamed directory are searched), retry at the first boundary after faults stop, no creation storm within an interval, at most two descriptors, none after Stop.",
-         "only open/creation failures and stream write failures are injected; writes to held files succeed"),
+ "C19": ("fault_enumeration", "3/C19", "Fault sequences: directory renamed away/restored, EMFILE/ENOSPC/EACCES on open, placed by the seeded scheduler anywhere relative to 3-6 interval boundaries and the writes of 1-4 tasks; plus file/console/rolling targets that are closed, never opened or fail every write. Oracle: every call returns, no panic, nothing accepted is lost (all inodes incl. the renamed directory are searched; only writes the simulated OS itself refused may be absent), retry at the first boundary after faults stop, no creation storm within an interval, at most two descriptors, none after Stop. In addition every placement of one outage of each kind in a 5-write / 4-boundary sequential script is enumerated completely on every run (520 cases).",
+         "fault kinds: directory renamed away/restored, EMFILE/ENOSPC/EACCES on open, ENOSPC on writes to held files (full or after a short count), EIO/ENOSPC on the console stream, backward clock jumps (robustness clauses only)"),
  "C14": ("exploration", "3/C14", "Generated directory populations (own rotated files, prefix-sharing foreign files, unrelated files, sub-directories) with mtimes on both sides of now - maxAge, maxAge 1..720 h, optional sibling .wf appender; the real asynchronous cleanup goroutine runs as a simulated task concurrently with writers and further rotations, optionally with ReadDir/Info/Remove failures. Oracle: survivors equal the expected set in both directions (fault-free) or deviate only toward not deleting (faults).",
          "mtimes keep a one-hour margin to the cut-off (equality corner not generated)"),
  "C04": ("exploration", "3/C04", "Seeded search over interleavings of 1-32 producers with the async worker (free, starved, slow or gated item by item), all three policies, bufferSize 100..400, events at enabled/disabled levels and raw writes, 1-3 references; exact counting oracle after Stop: delivered + GetDiscardCounter() = submitted at an enabled level, nothing twice, nothing to a wrong reference, Block => counter 0.",
